@@ -8,6 +8,22 @@ NOTE = ("Trusted: Lean 4.33 kernel + axioms {propext, Classical.choice, Quot.sou
         "vs compiled model driver on generated inputs), tables by tools/gen_tables.py; Spec predicates are additionally run "
         "on the implementation's own output. A theorem speaks about the model; the implementation is covered where the campaign compared them.")
 CLAIMS = {
+    'C09': ("Theorems: the LR automaton never panics (stack invariant, fuel bound), parseAll = recursive-descent Spec.parse for EVERY token list "
+            "(accept/reject, statements, error index), Spec.parse sound+complete for the inductive grammar, viable-prefix error position, "
+            "line splitting irrelevant. Correspondence: exhaustive kind sequences + grammar-directed sentences and mutants through the real "
+            "lexer+parser; Spec.parse run on the real tokens.", "7 C09", "Lean proof (LR/recursive-descent simulation) + correspondence"),
+    'C10': ("Theorems: Lex.line = declarative Spec.lexLine (ordered rule list, longest match per rule, first rule wins) for every line and "
+            "pending string; totality; exact byte columns; tiling; error at the first character no rule matches. Correspondence: all strings "
+            "to length 3/4 over a 32-class alphabet + random lines through the real Lexer::line.", "7 C10",
+            "Lean proof (scanner = rule-list spec) + exhaustive small-scope correspondence"),
+    'C13': ("Theorems (text-level half): blank/comment lines, trailing comments, edge whitespace are no-ops for the lexer; unused literal lets "
+            "and source positions are unobservable in the output; batch = map. The environment half cannot be a theorem: differential runs "
+            "under varied TZ/LANG/HOME/cwd/outdir/batch order, strace audit (no clock/pid/cwd reads), source scan (hash maps never iterated).",
+            "7 C13", "Lean proof (lexer/interpreter no-op lemmas) + environment differential runs + syscall audit (partial: environment clause not a theorem)"),
+    'C14': ("Theorems for every library table: rebinding rejected, use-before-bind/import rejected, re-import no-op, statements in order, "
+            "arguments left-to-right exactly once (trace semantics), let-bound values frozen and re-emittable in any order, inlining of "
+            "pure lets and renaming of positions leave the output unchanged. Correspondence + metamorphic relations on the real binary.",
+            "7 C14", "Lean proof (interpreter simulation lemmas) + metamorphic differential runs"),
     'C02': ("Theorems for every builder (TCP flow ops, UDP flow/unicast/broadcast/DNS/VXLAN, ICMP, ipv4::datagram, fragments, GRE/ERSPAN) and "
             "all payloads/options with total length <= 65535: Spec.ipv4Ok (version/IHL, total length, checksum) and every requested field reads "
             "back; nesting by induction over tunnel layers. Correspondence + Spec oracle on real records at every depth.", "7 C02",
